@@ -25,7 +25,13 @@ def collect_cases(paths):
 def run(ctx, prop, bias):
     # 1. design level: the implementation-shaped model refines the contract (all clauses), plus the
     #    liveness clause and the sensitivity configurations that must FAIL (non-vacuity of the model)
-    ctx.model_check("attack", "Attack", "MCAttackThorough.cfg" if ctx.thorough else "MCAttack.cfg", timeout=3000, coverage=ctx.thorough)
+    if prop == "C03" and not ctx.thorough:
+        # the same state space with, in addition, the refinement of WorkerPool.tla (whose invariant Apalache proves for every bound)
+        ctx.model_check("attack", "MCAttackRefine", "MCAttackRefine.cfg", timeout=3000)
+    else:
+        ctx.model_check("attack", "Attack", "MCAttackThorough.cfg" if ctx.thorough else "MCAttack.cfg", timeout=3000, coverage=ctx.thorough)
+        if prop == "C03":
+            ctx.model_check("attack", "MCAttackRefine", "MCAttackRefine.cfg", timeout=3000)
     if prop in ("C02", "C04"):
         ctx.model_check("attack", "Attack", "MCAttackLive.cfg", coverage=ctx.thorough)
     sens = []
